@@ -16,3 +16,5 @@ CONSTANTS
   PartFix = TRUE
   SubAt = "first"
   SyncSteps = TRUE
+  StallSteps = FALSE
+  SkipSeenByListing = FALSE
